@@ -175,7 +175,10 @@ class SLE(Equilibrium, phases='ls'):
             N = len(index)
             if N == 1:
                 self._chemical = chemicals.tuple[solute_index]
+                self._nonzero = nonzero
+                self._index = index
             else:
+                self._chemical = None # Not a pure solute (anymore)
                 # Set equilibrium objects
                 eq_chems = chemicals.tuple
                 eq_chems = [eq_chems[i] for i in index]
